@@ -3,4 +3,5 @@ import Proofs.C03
 import Proofs.C09
 import Proofs.C12
 import Proofs.C13
+import Proofs.C17
 import Proofs.C20
